@@ -30,12 +30,19 @@ Proof.
     split; [assumption|]. split; [assumption|]. intro k; reflexivity.
 Qed.
 
-Lemma da_ins_go_spec : forall key d cur addr d' e,
-  bytes_ok key -> DInv d addr -> used d cur -> da_ins_go d cur key = (d', Some e) ->
-  exists addr', DInv d' addr' /\ (forall k, View d' addr' k <-> View d addr k \/ k = addr cur ++ key).
+(* what one call of the loop yields: the key added, or an error with arrays longer than HUGE slots *)
+Definition ins_result (d : da) (addr : N -> list N) (key : list N) (d' : da) (r : option N) : Prop :=
+  match r with
+  | Some _ => exists addr', DInv d' addr' /\ (forall k, View d' addr' k <-> View d addr k \/ k = key)
+  | None => HUGE < blen d'
+  end.
+
+Lemma da_ins_go_spec : forall key d cur addr d' r,
+  bytes_ok key -> DInv d addr -> used d cur -> da_ins_go d cur key = (d', r) ->
+  ins_result d addr (addr cur ++ key) d' r.
 Proof.
-  induction key as [|s rest IH]; intros d cur addr d' e Hb I U H.
-  - cbn [da_ins_go] in H. inversion H; subst d' e; clear H.
+  induction key as [|s rest IH]; intros d cur addr d' r Hb I U H.
+  - cbn [da_ins_go] in H. inversion H; subst d' r; clear H.
     destruct (dinv_set_term d addr cur I U) as [I' V]. cbv zeta in *.
     exists addr. split; [assumption|]. intro k. rewrite app_nil_r. apply V.
   - inversion Hb as [|? ? Hs Hrest]; subst. unfold is_byte in Hs.
@@ -55,9 +62,10 @@ Proof.
     assert (Hc2 : cur < blen d2) by (rewrite Hl2; apply used_lt; assumption).
     (* what the rest of the key adds, once the next state is known *)
     assert (Fin : forall dn addrn nxt, DInv dn addrn -> used dn nxt -> addrn nxt = addr cur ++ [s] ->
-               (forall k, View dn addrn k <-> View d addr k) -> da_ins_go dn nxt rest = (d', Some e) ->
-               exists addr', DInv d' addr' /\ (forall k, View d' addr' k <-> View d addr k \/ k = addr cur ++ s :: rest)).
-    { intros dn addrn nxt In Un An Wn Hn. destruct (IH dn nxt addrn d' e Hrest In Un Hn) as (addr' & I' & W').
+               (forall k, View dn addrn k <-> View d addr k) -> da_ins_go dn nxt rest = (d', r) ->
+               ins_result d addr (addr cur ++ s :: rest) d' r).
+    { intros dn addrn nxt In Un An Wn Hn. pose proof (IH dn nxt addrn d' r Hrest In Un Hn) as X.
+      unfold ins_result in *. destruct r as [e|]; [|assumption]. destruct X as (addr' & I' & W').
       exists addr'. split; [assumption|]. intro k. rewrite W', Wn, An, <- app_assoc. reflexivity. }
     destruct (negb (is_free_word (cget d2 (bvv + s))) && (cget d2 (bvv + s) =? cur))%bool eqn:Cex.
     + (* the transition exists *)
@@ -74,9 +82,10 @@ Proof.
         intro k. rewrite W3. apply W2.
       * (* the slot belongs to another state: relocate *)
         cbn [negb andb] in Cex. apply N.eqb_neq in Cex.
-        destruct (relocate_state d2 cur s) as [d3 [nb|]] eqn:R; [|discriminate].
+        destruct (relocate_state d2 cur s) as [d3 [nb|]] eqn:R.
+        2:{ inversion H; subst d' r. apply (relocate_err d2 addr cur s d3 I2 U2 ltac:(rewrite V2; assumption) Hs R). }
         destruct (relocate_spec d2 addr cur s d3 nb I2 U2 ltac:(rewrite V2; assumption) Hs ltac:(rewrite V2; assumption) R)
-          as (addr3 & I3 & U3 & A3 & V3 & F3 & L3 & W3).
+          as (addr3 & I3 & U3 & A3 & V3 & F3 & L3 & W3 & _).
         pose proof (di_base _ _ I3 cur U3) as Hb3. rewrite V3 in Hb3.
         assert (Hnb : nb <> NIL_STATE /\ nb <= BMAX).
         { destruct Hb3 as [X|[_ X]]; [|split; [unfold NIL_STATE, BMAX in *; lia | assumption]].
@@ -102,8 +111,16 @@ Lemma da_insert_spec d addr key d' e : bytes_ok key -> DInv d addr -> da_insert 
 Proof.
   intros Hb I H. unfold da_insert in H. pose proof (di_len _ _ I) as [L1 _].
   replace (blen d =? 0) with false in H by (symmetry; apply N.eqb_neq; lia).
-  destruct (da_ins_go_spec key d 0 addr d' e Hb I (used_root d addr I) H) as (addr' & I' & W).
-  exists addr'. split; [assumption|]. intro k. rewrite W, (di_addr0 _ _ I). reflexivity.
+  pose proof (da_ins_go_spec key d 0 addr d' (Some e) Hb I (used_root d addr I) H) as X.
+  rewrite (di_addr0 _ _ I) in X. exact X.
+Qed.
+
+(* insert_double_array returns Err only when the arrays have grown beyond 257 * 10000 slots *)
+Lemma da_insert_err d addr key d' : bytes_ok key -> DInv d addr -> da_insert d key = (d', None) -> HUGE < blen d'.
+Proof.
+  intros Hb I H. unfold da_insert in H. pose proof (di_len _ _ I) as [L1 _].
+  replace (blen d =? 0) with false in H by (symmetry; apply N.eqb_neq; lia).
+  apply (da_ins_go_spec key d 0 addr d' None Hb I (used_root d addr I) H).
 Qed.
 
 Lemma da_insert_lookup d addr key d' e : bytes_ok key -> DInv d addr -> da_insert d key = (d', Some e) ->
@@ -190,6 +207,29 @@ Proof. intros ops H Hn. apply (d_run_refines ops d_empty [] H drel_empty Hn). Qe
 Lemma da_reachable_related_proof : forall ops, Forall da_op_ok ops -> d_noerr d_empty ops = true ->
   DRel (d_exec d_empty ops) (s_exec [] ops).
 Proof. intros ops H Hn. apply (d_run_refines ops d_empty [] H drel_empty Hn). Qed.
+
+(* the hypothesis d_noerr can only fail after an array has grown beyond 257 * 10000 slots *)
+Lemma d_noerr_or_huge : forall ops st S, Forall da_op_ok ops -> DRel st S ->
+  d_noerr st ops = true \/ exists n, HUGE < blen (d_da (d_exec st (firstn n ops))).
+Proof.
+  induction ops as [|op t IH]; intros st S Hok R; [left; reflexivity|].
+  inversion Hok as [|? ? Hop Ht]; subst.
+  assert (Hstep : (fst op = 0 -> snd (d_insert st (snd op)) = true) ->
+                  d_noerr st (op :: t) = true \/ exists n, HUGE < blen (d_da (d_exec st (firstn n (op :: t))))).
+  { intro Hins. destruct (d_step_refines st S op Hop R Hins) as [_ R'].
+    destruct (IH _ _ Ht R') as [Hn|(n & Hn)].
+    - left. cbn [d_noerr]. rewrite Hn, andb_true_r. destruct (N.eqb_spec (fst op) 0) as [E|E]; [apply Hins; assumption | reflexivity].
+    - right. exists (Datatypes.S n). cbn [firstn d_exec]. assumption. }
+  destruct (N.eq_dec (fst op) 0) as [E|E]; [|apply Hstep; intro; contradiction].
+  destruct (snd (d_insert st (snd op))) eqn:Ok; [apply Hstep; intros _; reflexivity|].
+  right. exists 1%nat. cbn [firstn d_exec]. destruct op as [code k]. cbn [fst snd] in *. subst code. cbn [d_step].
+  destruct R as ((addr & I) & _). destruct Hop as ((Hb & _) & _). cbn [snd] in Hb.
+  unfold d_insert in *. destruct (da_insert (d_da st) k) as [d' [e|]] eqn:Ei; cbn [fst snd] in *; [discriminate|].
+  cbn [d_da]. apply (da_insert_err _ addr k d' Hb I Ei).
+Qed.
+Lemma da_noerr_or_huge_proof : forall ops, Forall da_op_ok ops ->
+  d_noerr d_empty ops = true \/ exists n, HUGE < blen (d_da (d_exec d_empty (firstn n ops))).
+Proof. intros ops H. apply (d_noerr_or_huge ops d_empty [] H drel_empty). Qed.
 
 (* the hypotheses are inhabited: a history with a relocation (the third insert moves the children of a state and
    their grandchildren) in which no insert reports an error *)
